@@ -7,6 +7,7 @@ def A(name, bound, tier="quick", timeout=600, funcs=FUNCS):
 
 
 PROP = {
+    "level_text": "Decided for the TFM header/length arithmetic only: RawFile::deserialize on every byte string up to 52 bytes and on the lf=32767 family. File::from_raw_file, validation, and the whole PL direction (and 'PL->TFM output is readable') are NOT decided.",
     "title": "TFM reader is total on the header/length arithmetic",
     "explanation": (
         "RawFile::deserialize is run on a buffer whose every byte and whose length are solver variables: all 2^16 values of "
